@@ -2547,6 +2547,11 @@ func oracleC11(r *report, g *G, n int, single string) {
 		textCopy := strings.Clone(text0)
 		defer func() {
 			_ = build(k, cs).String()
+			// ... and other packets are printed in between
+			_ = build(3, []string{"SetTopicName:" + hexs([]byte("another/topic/altogether")), "SetQoS:1", "SetPacketID:4711", "SetCorrelationData:7a7a7a7a7a7a7a7a"}).String()
+			for _, kk := range allKinds {
+				_ = build(kk, baseCalls(kk)).String()
+			}
 			if text0 != textCopy {
 				r.fail("readonly-result-changes", c, fmt.Sprintf("the string String() returned reads %q later, it was %q", trunc(text0), trunc(textCopy)))
 			}
@@ -4447,6 +4452,7 @@ func oracleC13(r *report, g *G, n int, single string) {
 							r.fail("concurrent-string", c, s)
 						}
 						kept = append(kept, s)
+						_ = p2.String() // another packet printed in between
 					case 3:
 						var b strings.Builder
 						mq.Dump(&b, p)
